@@ -274,7 +274,6 @@ theorem appendOne_ok {c : Cfg α} {M : Mat n α} {d : Fin n → Bool} (hd : Mask
   unfold appendOne
   simp only [memo_eq]
   split_ifs
-  · exact hdb
   · intro q hq
     rcases List.mem_append.mp hq with hq | hq
     · exact hdb q hq
@@ -283,6 +282,7 @@ theorem appendOne_ok {c : Cfg α} {M : Mat n α} {d : Fin n → Bool} (hd : Mask
       have := orthPair_ok (c := c) db hdb (maskOff d xnew, maskOff d (M *ᵥ xnew))
         ⟨mulVec_maskOff hd xnew, fun i hi => by simp [maskOff, hi]⟩
       exact this
+  · exact hdb
 
 theorem appendCols_ok {k : Nat} {c : Cfg α} {M : Mat n α} {d : Fin n → Bool} (hd : MaskOK M d) (rc : Bool)
     (did : Fin k → Bool) (xnew : Blk n k α) :
@@ -299,6 +299,24 @@ theorem appendCols_ok {k : Nat} {c : Cfg α} {M : Mat n α} {d : Fin n → Bool}
 
 /-! ### one `_do_solve_1rhs` call -/
 
+/-- adding the masked inner solution of the remaining right-hand side completes the column -/
+theorem final_col {M : Mat n α} {d : Fin n → Bool} (hd : MaskOK M d) (r1 r2 rhs xn : Vec n α)
+    (h1 : M *ᵥ r2 + r1 = rhs) (hz : ∀ i, d i = true → r1 i = 0) (hx : M *ᵥ xn = r1) :
+    M *ᵥ (fun i => if d i then r2 i else r2 i + xn i) = rhs := by
+  have e : (fun i => if d i then r2 i else r2 i + xn i) = r2 + maskOff d xn := by
+    funext i
+    by_cases hi : d i = true
+    · simp [maskOff, hi]
+    · simp [maskOff, hi]
+  rw [e, Matrix.mulVec_add, mulVec_maskOff hd, hx]
+  have hzz : maskOff d r1 = r1 := by
+    funext i
+    by_cases hi : d i = true
+    · simp [maskOff, hi, hz i hi]
+    · simp [maskOff, hi]
+  rw [hzz]
+  exact h1
+
 theorem doSolve_ok {k : Nat} {c : Cfg α} (hL : Laws c) {M : Mat n α} {Mc : Bool} {d : Fin n → Bool}
     {db : List (Pair n α)} (hd : MaskOK M d) (hdb : DbOK M d db) (hreal : Mc = false → RealM c M)
     (solveFn : Vec n α → Option (Vec n α) → Vec n α) (hin : ∀ b x0, M *ᵥ solveFn b x0 = b)
@@ -313,7 +331,7 @@ theorem doSolve_ok {k : Nat} {c : Cfg α} (hL : Laws c) {M : Mat n α} {Mc : Boo
     exact ⟨diag_step hd (rhs j), fun i hi => by simp [maskOff, hi]⟩
   unfold doSolve at h
   simp only [memo_eq, memoB_eq] at h
-  split_ifs at h with hany hstrict
+  split_ifs at h with hany
   · -- the inner solver ran
     injection h with h
     subst h
@@ -323,22 +341,7 @@ theorem doSolve_ok {k : Nat} {c : Cfg α} (hL : Laws c) {M : Mat n α} {Mc : Boo
     · intro hdid
       simp only at hdid ⊢
       simp only [hdid, if_true]
-      set r := reconstruct c d (Mc || rhsC) db (fun j => maskOff d (rhs j), fun j => diagSol M d (rhs j)) with hrdef
-      set xn := solveFn (r.1 j) (Option.map (fun X => X j)
-        (Option.map (fun p => fun j => deflate c d db (maskOff d (p.1 j))) x0)) with hxn
-      have e : (fun i => if d i then r.2 j i else r.2 j i + xn i) = r.2 j + maskOff d xn := by
-        funext i
-        by_cases hi : d i = true
-        · simp [maskOff, hi]
-        · simp [maskOff, hi]
-      rw [e, Matrix.mulVec_add, mulVec_maskOff hd, hin]
-      have hz : maskOff d (r.1 j) = r.1 j := by
-        funext i
-        by_cases hi : d i = true
-        · simp [maskOff, hi, (hr j).2 i hi]
-        · simp [maskOff, hi]
-      rw [hz]
-      exact (hr j).1
+      exact final_col hd _ _ _ _ (hr j).1 (hr j).2 (hin _ _)
     · intro hdid
       simp only at hdid ⊢
       simp only [hdid]
